@@ -391,6 +391,21 @@ func (g *ubjGen) str(s string) {
 	g.Tokens = append(g.Tokens, [2]int{start, len(g.b)})
 }
 
+// markerLen occasionally pads s to a length whose byte value is itself a
+// UBJSON marker ('}' = 125, ']' = 93, '#', '$', 'N', ...): a length byte
+// that looks like a marker must never be taken for one, wherever a chunk
+// boundary falls.
+func markerLen(r *Rand, s string) string {
+	if !r.P(1, 12) {
+		return s
+	}
+	n := int(Pick(r, []byte{'}', ']', '{', '[', '#', '$', 'N', 'Z', 'S', 'i', 'U'}))
+	for len(s) < n {
+		s += "x"
+	}
+	return s
+}
+
 var ubjScalarMarkers = []byte{'Z', 'T', 'F', 'i', 'U', 'I', 'l', 'L', 'd', 'D', 'C', 'S', 'H'}
 
 // scalarPayload writes the payload of a scalar of marker m (without marker).
@@ -442,7 +457,7 @@ func (g *ubjGen) scalarPayload(m byte) val.V {
 		g.b = append(g.b, c)
 		return val.VUint(uint64(c))
 	case 'S':
-		s := String(r, true)
+		s := markerLen(r, String(r, true))
 		g.str(s)
 		return val.VStr(s)
 	case 'H':
@@ -510,7 +525,7 @@ func (g *ubjGen) containerBody(obj bool, depth int) val.V {
 	}
 	for i := 0; i < n; i++ {
 		if obj {
-			k := Key(r, true)
+			k := markerLen(r, Key(r, true))
 			g.str(k)
 			out.Keys = append(out.Keys, k)
 		}
